@@ -1533,17 +1533,25 @@ class SpaceManager(SharedSpaceOperations):
         if isinstance(value, Interface) and refmode == "relative":
             basevalue = value._impl.idstr
             for subspace in self._get_subs(space):
-                if name in subspace.own_refs:
-                    break
-                else:
-                    subvalue = self._graph.get_relative(
-                        subspace.idstr, space.idstr,
-                        basevalue)
-                    if not subvalue:
-                        raise ValueError(
-                            "Cannot create relative reference for '%s' in '%s'"
-                            % (basevalue, subspace.idstr)
-                        )
+                subref = subspace.own_refs.get(name)
+                if subref is not None and subref.is_defined():
+                    continue    # overridden in the sub space
+                # Check the sub spaces that derive the name from space
+                for b in self._get_space_bases(subspace, self._graph):
+                    if b is space:
+                        subvalue = self._graph.get_relative(
+                            subspace.idstr, space.idstr,
+                            basevalue)
+                        if not subvalue:
+                            raise ValueError(
+                                "Cannot create relative reference"
+                                " for '%s' in '%s'"
+                                % (basevalue, subspace.idstr)
+                            )
+                        break
+                    bref = b.own_refs.get(name)
+                    if bref is not None and bref.is_defined():
+                        break   # derived from a nearer space
 
     def new_ref(self, space, name, value, refmode):
 
